@@ -2,6 +2,8 @@ package colsim
 
 import (
 	"fmt"
+	"runtime"
+	"runtime/debug"
 	"sort"
 
 	"github.com/kelindar/column"
@@ -17,6 +19,7 @@ type concOracles struct {
 	phantom   bool   // C02: in-flight inserts must not be visible to other readers
 	log       bool   // the primary's commits are also serialized to a commit.Log on a SimFile
 	truncate  [2]int // C13: enumerate truncation points (every byte below [0], else [1] samples); [0]==0 = off
+	snapfault bool   // C14 part B: the snapshotter writes to a SimFile with a fault plan (Case.Faults)
 }
 
 // blockCommit is one (transaction, block) application in latch order.
@@ -55,6 +58,7 @@ type concState struct {
 	writersLeft int
 	applied     int
 	setupSnap   []byte
+	fd0         int // open descriptors before the threads start (C14 part B)
 	setupModel  *Model
 	// stream bookkeeping
 	committedBlocks map[*MTxn]map[uint32]bool
@@ -150,6 +154,12 @@ func runConc(cs *Case, or concOracles) (w *World) {
 	}
 	w.tap.onAppend = func(tc *TapCommit, c commit.Commit) { w.onEmit(tc, c) }
 
+	if or.snapfault {
+		old := debug.SetGCPercent(-1) // finalizers must not hide a descriptor leak
+		defer debug.SetGCPercent(old)
+		runtime.GC()
+		st.fd0 = fdCount()
+	}
 	w.sim = NewSim(NewRng(cs.SchedSeed, 3), cs.Strategy, cs.Sched)
 	if cs.Sched == nil {
 		w.sim.replay = nil
@@ -194,6 +204,30 @@ func runConc(cs *Case, or concOracles) (w *World) {
 				}
 				st.writersLeft--
 			})
+		case "indexer":
+			st.writersLeft++
+			w.sim.Go(fmt.Sprintf("indexer%d", ti), func(t *Thread) {
+				for xi := range tp.Txns {
+					for oi := range tp.Txns[xi].Ops {
+						op := &tp.Txns[xi].Ops[oi]
+						if op.Index == nil || w.stopped() {
+							continue
+						}
+						if _, ok := w.model.Col(op.Index.Col); !ok {
+							continue
+						}
+						if err := w.primary.CreateIndex(op.Index.Name, op.Index.Col, op.Index.Pred.rule()); err != nil {
+							w.fail(violation("schema", "CreateIndex(%q): %v", op.Index.Name, err))
+							return
+						}
+						// from now on the index is part of the observable state
+						w.model.Indexes = append(w.model.Indexes, *op.Index)
+						w.stats.probe("index-built-beside-writers")
+						w.sim.Yield(ptTxnEdge)
+					}
+				}
+				st.writersLeft--
+			})
 		case "applier":
 			w.sim.Go(fmt.Sprintf("applier%d", ti), func(t *Thread) { w.applierLoop() })
 		default:
@@ -214,9 +248,16 @@ func runConc(cs *Case, or concOracles) (w *World) {
 		w.fail(violation("panic/"+e.At, "%v", e))
 	case *DeadlockError:
 		w.taint = true
-		if cs.Prop == "C18" {
+		failedSnap := false
+		for _, s := range st.snaps {
+			failedSnap = failedSnap || s.err != nil
+		}
+		switch {
+		case cs.Prop == "C18":
 			w.fail(violation("deadlock", "%v", e))
-		} else {
+		case or.snapfault && failedSnap:
+			w.fail(violation("after-failed-snapshot/deadlock", "after a failed Snapshot no thread can proceed (a latch was left held): %v", e))
+		default:
 			w.incon = "deadlock"
 		}
 	case *HangError:
@@ -446,6 +487,12 @@ func (w *World) quiescentChecks() {
 			v.Sig = "replica-log/" + v.Sig
 			v.Detail = fmt.Sprintf("replica fed from the serialized log (%d commits) differs from the quiescent primary: %s", n, v.Detail)
 			w.fail(v)
+			return
+		}
+	}
+	if st.or.snapfault {
+		w.snapfaultQuiescent()
+		if w.viol != nil {
 			return
 		}
 	}
